@@ -1014,3 +1014,4 @@ Proof.
     + rewrite Ex, Ey. exact V1.
     + exact V2.
 Qed.
+
